@@ -246,6 +246,16 @@ func targeted(r *rand.Rand, per int, out *hx.Out) {
 				out.Put(c)
 				id++
 			}
+			// the same error value at the version read of a LATER start (versions are recorded by then): a first
+			// start interrupted somewhere among the scripts, then the first version read of the second start fails
+			if len(scripts) > 0 && len(rds) > 0 {
+				first := &Fault{N: scripts[len(scripts)/4+r.Intn(len(scripts)/2)], Kind: "after"}
+				c := Case{ID: id, Class: names[ci] + "/error-value-later-read", Cfg: cfg,
+					Faults: []*Fault{first, {N: rds[0], Kind: "before", Err: spec}}}
+				runCase(&c)
+				out.Put(c)
+				id++
+			}
 		}
 	}
 }
